@@ -2,6 +2,7 @@ import DaskModel.Model.Repack
 import DaskModel.Model.GraphMerge
 import DaskModel.Lemmas.Restore
 import DaskModel.Props.C12
+import DaskModel.Props.C14
 /-!
 # C13 — collections computed together give the same values as computed alone
 
@@ -291,6 +292,42 @@ theorem compute_together_eq_alone (cs : List (Nat × κ × Graph κ V))
     · intro g hg
       obtain ⟨c', hc', rfl⟩ := List.mem_map.mp hg
       exact hc c' hc'
+    · intro g hg g' hg'
+      obtain ⟨a, ha, rfl⟩ := List.mem_map.mp hg
+      obtain ⟨b, hb, rfl⟩ := List.mem_map.mp hg'
+      exact hag a ha b hb
+
+/-! ## the whole of `dask.compute(*args)` -/
+
+/-- **`dask.compute(*args)`**: `unpack_collections` extracts the collections `cs` (deduplicated by token); the scheduler
+    is asked for the output keys of the optimised expression — which are the collections' keys in order, whatever the
+    optimiser grouped — in the merge of their graphs, where each key evaluates to the value `val t` the collection
+    computes to alone; and `repack` puts those values back into the argument structure: the result is `args` with
+    every collection replaced by the value it computes to alone, nothing else changed. -/
+theorem compute_spec (args : List (Tree Nat)) (opt : Nat → Nat) (key : Nat → κ) (graph : Nat → Graph κ V) (val : Nat → V)
+    (hc : ∀ t ∈ (unpackArgs args).1, Closed (graph t))
+    (hag : ∀ t ∈ (unpackArgs args).1, ∀ t' ∈ (unpackArgs args).1, ∀ k, (graph t k).isSome = true → (graph t' k).isSome = true →
+      ∀ v, Evals (graph t) k v → Evals (graph t') k v)
+    (hv : ∀ t ∈ (unpackArgs args).1, Evals (graph t) (key t) (val t)) :
+    keysAfterTune ((unpackArgs args).1.map (fun t => (opt t, key t))) = (unpackArgs args).1.map (fun t => some (key t)) ∧
+    (∀ t ∈ (unpackArgs args).1, Evals (mergeAll ((unpackArgs args).1.map graph)) (key t) (val t)) ∧
+    repack ((unpackArgs args).1.map val) (unpackArgs args).2 = some (.tuple (mapCollL val args)) := by
+  refine ⟨?_, ?_, C14.repack_unpack val args⟩
+  · rw [keys_restored]
+    simp [List.map_map, Function.comp_def]
+  · intro t ht
+    have hdom : (graph t (key t)).isSome = true := by
+      obtain ⟨n, hn⟩ := hv t ht
+      cases hm : graph t (key t) with
+      | some _ => rfl
+      | none =>
+        cases n with
+        | zero => simp [evalG] at hn
+        | succ n => rw [evalG_step, hm] at hn; simp at hn
+    refine mergeAll_sound _ ?_ ?_ (graph t) (List.mem_map_of_mem ht) (key t) (val t) hdom (hv t ht)
+    · intro g hg
+      obtain ⟨t', ht', rfl⟩ := List.mem_map.mp hg
+      exact hc t' ht'
     · intro g hg g' hg'
       obtain ⟨a, ha, rfl⟩ := List.mem_map.mp hg
       obtain ⟨b, hb, rfl⟩ := List.mem_map.mp hg'
